@@ -12,14 +12,16 @@ if args and args[0] == '--show':
     args = args[1:]
 tab = census.load_table() if os.path.exists(census.TABLE) else {}
 for name in args:
-    old = tab.get(name.lstrip('+'), {})
-    eff = bool(old.get('effects')) or name.startswith('+')
-    name = name.lstrip('+')
-    sinks = old.get('sinks')
+    flags = name[:len(name) - len(name.lstrip('+~'))]
+    name = name.lstrip('+~')
+    sinks = None
     if '@' in name:
         name, sinks = name.split('@', 1)
-        old = tab.get(name, {})
-    ex, inl = census.compute(P, name, tuple(old.get('opaque', ())), eff, sinks)
+    old = tab.get(name, {})
+    eff = bool(old.get('effects')) or '+' in flags
+    clo = bool(old.get('closures')) or '~' in flags
+    sinks = sinks or old.get('sinks')
+    ex, inl = census.compute(P, name, tuple(old.get('opaque', ())), eff, sinks, clo)
     if show:
         print('==', name, ' inlined:', sorted(set(inl)))
         for e in ex:
@@ -28,7 +30,7 @@ for name in args:
             for a in e['full']:
                 print('         ', a[:400])
         continue
-    ent = {'effects': eff, 'sinks': sinks, 'note': old.get('note', 'TODO review'), 'opaque': old.get('opaque', []), 'inlined': sorted(set(inl)),
+    ent = {'effects': eff, 'sinks': sinks, 'closures': clo, 'note': old.get('note', 'TODO review'), 'opaque': old.get('opaque', []), 'inlined': sorted(set(inl)),
            'exits': [{k: e[k] for k in ('cls', 'label', 'trigger', 'atoms', 'full')} for e in ex]}
     ent['floor'] = len([e for e in ex if e['cls'] in ('reject', 'exact')]) + len([e for e in ex if e['cls'] == 'accept'])
     tab[name] = ent
